@@ -25,16 +25,21 @@ def run(ctx):
                          "pool mutex, after which everything continues on the poisoned pool), patterned allocations of 0..6000 bytes (also after a nested "
                          "scope through DerefMut), guard drops in random order, guards moved to other threads, mem::forget of a guard, yields/sleeps/spins, 1-3 rounds per case "
                          "separated by reset / reset_to_start / nothing, then drop of the pool; the history is ordered by lock tickets and replayed on the model; "
+                         "plus deterministic probes of the pop-or-create critical section for each of the six get variants (the base allocator, called while the pool creates the "
+                         "fallback arena, asks a partner thread to drop the only live guard and watches for 50 ms whether that drop can complete: it must block on the pool mutex); "
                          "distinct_nontrivial counts distinct linearised histories (hash of the case text)")
     proved = prove(ctx, MODULES)
-    n_single, n_threads = (80, 240) if ctx.quick() else (4000, 20000)
+    n_single, n_threads, n_probe = (80, 240, 2) if ctx.quick() else (4000, 20000, 40)     # run_pool deepens them itself (ctx.scale())
     run_pool(ctx, n_single, "single")
     run_pool(ctx, n_threads, "threads")
+    # pop-or-create must be ONE critical section: steered deterministically, n_probe probes for each of the six get variants (50 ms each)
+    run_pool(ctx, n_probe, "probe")
     if (not proved or ctx.disagreements) and not ctx.oracle_failures and ctx.quick():
         # a proof obligation or the correspondence broke: search harder for a concrete failing input
         ctx.notes.append("proof/correspondence broken: running a deeper search for a failing input (direct oracles on the implementation)")
         run_pool(ctx, 1500, "single", seed_offset=1000, label="search-single")
         run_pool(ctx, 5000, "threads", seed_offset=2000, label="search-threads")
+        run_pool(ctx, 20, "probe", seed_offset=3000, label="search-probe")
     finish_pool_obligation(ctx)
     for p in PARTIAL:
         ctx.partial.append(p)
